@@ -1189,11 +1189,13 @@ class CSSMatch(_DocumentNav):
                         check = False
                         has_name = False
                         for k, v in self.iter_attributes(child):
-                            if util.lower(k) == 'type' and util.lower(v) == 'radio':
+                            # Attribute names are case sensitive in XML documents
+                            attr = k if self.is_xml_tree(child) else util.lower(k)
+                            if attr == 'type' and util.lower(v) == 'radio':
                                 is_radio = True
-                            elif util.lower(k) == 'name' and v == name:
+                            elif attr == 'name' and v == name:
                                 has_name = True
-                            elif util.lower(k) == 'checked':
+                            elif attr == 'checked':
                                 check = True
                             if is_radio and check and has_name and get_parent_form(child) is form:
                                 checked = True
